@@ -60,6 +60,12 @@ func newRuntime(c *Client, host string) *client.Runtime {
 
 // buildClientRequestOn builds one operation's request on an existing Runtime.
 func buildClientRequestOn(rt *client.Runtime, c *Client, pathPattern string) (*http.Request, error) {
+	return buildClientRequestWith(rt, c, pathPattern, writerFor)
+}
+
+// buildClientRequestWith: wf supplies the auth writers (a fresh one per use, or the
+// application's long-lived instance of that credential).
+func buildClientRequestWith(rt *client.Runtime, c *Client, pathPattern string, wf func(Cred) runtime.ClientAuthInfoWriter) (*http.Request, error) {
 	params := runtime.ClientRequestWriterFunc(func(req runtime.ClientRequest, _ strfmt.Registry) error {
 		if c.Preset != nil {
 			name := c.PresetName
@@ -143,14 +149,14 @@ func buildClientRequestOn(rt *client.Runtime, c *Client, pathPattern string) (*h
 	switch {
 	case c.OpAuth == nil:
 	case len(c.OpAuth) == 1 && !c.ComposeNil:
-		op.AuthInfo = writerFor(c.OpAuth[0])
+		op.AuthInfo = wf(c.OpAuth[0])
 	default:
 		var ws []runtime.ClientAuthInfoWriter
 		if c.ComposeNil {
 			ws = append(ws, nil)
 		}
 		for _, cr := range c.OpAuth {
-			ws = append(ws, writerFor(cr))
+			ws = append(ws, wf(cr))
 		}
 		op.AuthInfo = client.Compose(ws...)
 	}
@@ -164,6 +170,36 @@ func release(req *http.Request) {
 		_, _ = io.Copy(io.Discard, req.Body)
 		_ = req.Body.Close()
 	}
+}
+
+// scrub is the hostile caller: the owner of a built (or received) request overwrites, in
+// place, every header and parsed form value it was handed and then empties the maps
+// (redacting secrets before logging, recycling the request). Nothing the library hands
+// to one request may be storage that a later request or the writer itself still uses.
+func scrub(reqs ...*http.Request) int {
+	n := 0
+	wipe := func(m map[string][]string) {
+		for k, vs := range m {
+			for i := range vs {
+				vs[i] = "REDACTED"
+				n++
+			}
+			delete(m, k)
+		}
+	}
+	for _, r := range reqs {
+		if r == nil {
+			continue
+		}
+		wipe(r.Header)
+		wipe(r.Form)
+		wipe(r.PostForm)
+		wipe(r.Trailer)
+		if r.MultipartForm != nil {
+			wipe(r.MultipartForm.Value)
+		}
+	}
+	return n
 }
 
 // overWire serialises the client request the way the transport would and
